@@ -987,3 +987,361 @@ func evalCondR(c Cond, bind Bindings, res func(string) (TVal, bool)) (bool, erro
 	// signed comparison for values that may be negative is not needed here (sizes)
 	return (a.R&evalRelU(l.U, r.U) != 0) == c.Truth, nil
 }
+
+// C07-R6 OUTPUT-FRESH: the byte slices handed out by the encoders are owned by
+// the caller or by the object they were asked of; none aliases package-level
+// storage (a shared scratch buffer or pool) that a later call overwrites.
+// Backward trace of every returned []byte through slicing, phi, append,
+// Buffer.Bytes and repo callees to its roots.
+func ruleEncoderOutputFresh(c *Check, rule string) {
+	type root struct{ kind, what string }
+	var trace func(v ssa.Value, depth int, seen map[ssa.Value]bool) []root
+	trace = func(v ssa.Value, depth int, seen map[ssa.Value]bool) []root {
+		if v == nil || seen[v] || depth > 12 {
+			return nil
+		}
+		seen[v] = true
+		switch x := v.(type) {
+		case *ssa.Const:
+			return nil
+		case *ssa.Global:
+			return []root{{"global", x.Pkg.Pkg.Path() + "." + x.Name()}}
+		case *ssa.Parameter, *ssa.FreeVar:
+			return []root{{"caller", x.Name()}}
+		case *ssa.MakeSlice:
+			return []root{{"fresh", "make"}}
+		case *ssa.Alloc:
+			// a local: what is stored into it
+			var out []root
+			out = append(out, root{"fresh", "local " + x.Comment})
+			if rs := x.Referrers(); rs != nil {
+				for _, r := range *rs {
+					if st, ok := r.(*ssa.Store); ok && st.Addr == x {
+						out = append(out, trace(st.Val, depth+1, seen)...)
+					}
+				}
+			}
+			return out
+		case *ssa.Slice:
+			return trace(x.X, depth+1, seen)
+		case *ssa.Phi:
+			var out []root
+			for _, e := range x.Edges {
+				out = append(out, trace(e, depth+1, seen)...)
+			}
+			return out
+		case *ssa.ChangeType:
+			return trace(x.X, depth+1, seen)
+		case *ssa.Convert:
+			return trace(x.X, depth+1, seen)
+		case *ssa.MakeInterface:
+			return trace(x.X, depth+1, seen)
+		case *ssa.TypeAssert:
+			return trace(x.X, depth+1, seen)
+		case *ssa.Extract:
+			return trace(x.Tuple, depth+1, seen)
+		case *ssa.FieldAddr:
+			return trace(x.X, depth+1, seen)
+		case *ssa.IndexAddr:
+			return trace(x.X, depth+1, seen)
+		case *ssa.UnOp:
+			return trace(x.X, depth+1, seen)
+		case *ssa.Call:
+			cc := x.Common()
+			if b, ok := cc.Value.(*ssa.Builtin); ok {
+				if b.Name() == "append" && len(cc.Args) > 0 {
+					return trace(cc.Args[0], depth+1, seen)
+				}
+				return nil
+			}
+			callee := cc.StaticCallee()
+			if callee == nil {
+				return []root{{"fresh", "dynamic call"}}
+			}
+			qn := calleeName(callee)
+			switch {
+			case strings.HasSuffix(qn, "bytes.Buffer).Bytes") || strings.HasSuffix(qn, "bytes.Buffer).Next") || strings.HasSuffix(qn, "bytes.Buffer).AvailableBuffer"):
+				return trace(cc.Args[0], depth+1, seen)
+			case strings.HasSuffix(qn, "sync.Pool).Get"):
+				return []root{{"pool", qn}}
+			case strings.HasPrefix(fnPkgPath(callee), modPath) && callee.Blocks != nil:
+				var out []root
+				for _, b := range callee.Blocks {
+					if ret, ok := b.Instrs[len(b.Instrs)-1].(*ssa.Return); ok {
+						for _, r := range ret.Results {
+							if isByteCarrier(r.Type()) {
+								for _, rt := range trace(r, depth+1, seen) {
+									if rt.kind == "caller" {
+										// the callee's parameter: the argument passed here
+										for i, p := range callee.Params {
+											if p.Name() == rt.what && i < len(cc.Args) {
+												out = append(out, trace(cc.Args[i], depth+1, seen)...)
+											}
+										}
+										continue
+									}
+									out = append(out, rt)
+								}
+							}
+						}
+					}
+				}
+				return out
+			}
+			return []root{{"fresh", "result of " + qn}}
+		}
+		return []root{{"fresh", fmt.Sprintf("%T", v)}}
+	}
+	n, bad := 0, 0
+	var names []string
+	for _, fn := range c.P.RepoFuncs() {
+		if shortPkg(fnPkgPath(fn)) != "snapshot" || fn.Blocks == nil || fn.Parent() != nil {
+			continue
+		}
+		res := fn.Signature.Results()
+		has := false
+		for i := 0; i < res.Len(); i++ {
+			if isByteSlice(res.At(i).Type()) {
+				has = true
+			}
+		}
+		if !has {
+			continue
+		}
+		name := QualName(fn)
+		c.UseFunc(name)
+		names = append(names, name)
+		for _, b := range fn.Blocks {
+			ret, ok := b.Instrs[len(b.Instrs)-1].(*ssa.Return)
+			if !ok {
+				continue
+			}
+			for _, r := range ret.Results {
+				if !isByteSlice(r.Type()) {
+					continue
+				}
+				n++
+				for _, rt := range trace(r, 0, map[ssa.Value]bool{}) {
+					if rt.kind == "global" || rt.kind == "pool" {
+						bad++
+						c.Bad(rule, name+"/output-fresh", fmt.Sprintf("the returned bytes alias shared package-level storage (%s %s): the next call overwrites what the previous caller still holds, so an encoded snapshot no longer decodes to what was encoded", rt.kind, rt.what), c.P.InstrPos(ret), nil)
+					}
+				}
+			}
+		}
+	}
+	sort.Strings(names)
+	if bad == 0 {
+		c.Ok(rule, "snapshot/output-fresh", fmt.Sprintf("%d returned byte slices in %d functions (%s) traced to their roots: fresh allocations, the receiver's own buffer or the caller's argument; none reaches a package-level variable or pool", n, len(names), strings.Join(names, ", ")), "")
+	}
+	c.Floor(rule, n, 3, "returned byte slices in package snapshot")
+}
+
+func isByteSlice(t types.Type) bool {
+	s, ok := t.Underlying().(*types.Slice)
+	if !ok {
+		return false
+	}
+	b, ok := s.Elem().Underlying().(*types.Basic)
+	return ok && b.Kind() == types.Uint8
+}
+
+func isByteCarrier(t types.Type) bool {
+	if isByteSlice(t) {
+		return true
+	}
+	if p, ok := t.Underlying().(*types.Pointer); ok {
+		if n, ok := p.Elem().(*types.Named); ok && n.Obj().Name() == "Buffer" {
+			return true
+		}
+	}
+	return false
+}
+
+// C07-R7 WRITE-FITS: every scratch buffer the encoders fill through moving
+// windows b[off:] is large enough for the most they can write into it, for
+// all field lengths: the upper bound of each write's end (a linear form over
+// the lengths of the encoded fields) is compared coefficient-wise with the
+// lower bound of the allocated length. A too small buffer truncates a copy
+// silently (the length prefix then disagrees with the payload) or panics.
+var writeFitsAssume = map[string]map[string]int64{
+	// DBI names are LMDB keys of the main database (at most 511 bytes); the
+	// transform is one of the constants of snapshot/transforms.go.
+	"snapshot.(*DBI).doFlushFields": {"d.name": 511, "d.transform": 50},
+}
+
+func ruleWriteFits(c *Check, rule string) {
+	nBuf, nObl, bad := 0, 0, 0
+	var bufs []string
+	nInFn := map[string]int{}
+	for _, fn := range c.P.RepoFuncs() {
+		if shortPkg(fnPkgPath(fn)) != "snapshot" || fn.Blocks == nil {
+			continue
+		}
+		name := QualName(fn)
+		for _, blk := range fn.Blocks {
+			for _, in := range blk.Instrs {
+				// make([]byte, n): a MakeSlice, or for constant n a slice of a
+				// fresh array
+				var ms ssa.Value
+				var msLen ssa.Value
+				constLen := int64(-1)
+				switch x := in.(type) {
+				case *ssa.MakeSlice:
+					if !isByteSlice(x.Type()) {
+						continue
+					}
+					if k, ok := x.Len.(*ssa.Const); ok && k.Value != nil && k.Int64() == 0 {
+						continue
+					}
+					ms, msLen = x, x.Len
+				case *ssa.Slice:
+					a, ok := x.X.(*ssa.Alloc)
+					if !ok || !a.Heap && a.Comment != "makeslice" || a.Comment != "makeslice" || !isByteSlice(x.Type()) || x.Low != nil {
+						continue
+					}
+					n, ok := arrayLen(a)
+					if !ok {
+						continue
+					}
+					constLen = n
+					if x.High != nil {
+						k, ok := x.High.(*ssa.Const)
+						if !ok || k.Value == nil {
+							continue
+						}
+						constLen = k.Int64()
+					}
+					if constLen == 0 {
+						continue
+					}
+					ms = x
+				default:
+					continue
+				}
+				refs := ms.Referrers()
+				if refs == nil {
+					continue
+				}
+				type obl struct {
+					end  ssa.Value
+					ext  LinForm
+					at   ssa.Instruction
+					what string
+				}
+				var obls []obl
+				windows := 0
+				var unknown []string
+				up := newBounder(fn, true, writeFitsAssume[name])
+				for _, r := range *refs {
+					switch x := r.(type) {
+					case *ssa.Slice:
+						if x.X != ms {
+							continue
+						}
+						if x.High != nil {
+							obls = append(obls, obl{x.High, lfConst(0), x, "slice end"})
+						}
+						if x.Low == nil {
+							continue
+						}
+						wr := x.Referrers()
+						if wr == nil {
+							continue
+						}
+						for _, u := range *wr {
+							call, ok := u.(*ssa.Call)
+							if !ok {
+								if _, isDbg := u.(*ssa.DebugRef); !isDbg {
+									unknown = append(unknown, fmt.Sprintf("%T", u))
+								}
+								continue
+							}
+							cc := call.Common()
+							if bi, ok := cc.Value.(*ssa.Builtin); ok && bi.Name() == "copy" && cc.Args[0] == ssa.Value(x) {
+								windows++
+								obls = append(obls, obl{x.Low, up.lenTerm(cc.Args[1]), call, "copy of " + up.pathOf(cc.Args[1], 0)})
+								continue
+							}
+							callee := cc.StaticCallee()
+							cn := ""
+							if callee != nil {
+								cn = calleeName(callee)
+							}
+							switch {
+							case cn == "csproto.EncodeTag" || cn == "csproto.EncodeVarint":
+								windows++
+								obls = append(obls, obl{x.Low, up.Eval(call), call, cn})
+							case strings.Contains(cn, "littleEndian).PutUint") || strings.Contains(cn, "bigEndian).PutUint"):
+								windows++
+								if x.High == nil {
+									w := int64(8)
+									if strings.HasSuffix(cn, "32") {
+										w = 4
+									} else if strings.HasSuffix(cn, "16") {
+										w = 2
+									}
+									obls = append(obls, obl{x.Low, lfConst(w), call, cn})
+								}
+							default:
+								unknown = append(unknown, cn)
+							}
+						}
+					}
+				}
+				if windows == 0 {
+					continue
+				}
+				nBuf++
+				bufs = append(bufs, fmt.Sprintf("%s:%s", name, c.P.InstrPos(in)))
+				c.UseFunc(name)
+				nInFn[name]++
+				construct := fmt.Sprintf("%s/buffer#%d", name, nInFn[name])
+				if len(unknown) > 0 {
+					c.Undecided(rule, construct, fmt.Sprintf("a window of the buffer is used by something the rule does not bound: %v", unknown), c.P.InstrPos(in))
+					continue
+				}
+				lo := lfConst(constLen)
+				if msLen != nil {
+					lo = newBounder(fn, false, nil).Eval(msLen)
+				}
+				if lo.Top {
+					c.Undecided(rule, construct, "cannot bound the allocated length from below: "+lo.Why, c.P.InstrPos(in))
+					continue
+				}
+				worst := lfConst(0)
+				okb := true
+				for _, o := range obls {
+					nObl++
+					end := up.EvalAt(o.end, o.ext, o.at.Block())
+					if end.Top {
+						c.Undecided(rule, construct, "cannot bound the end of a write ("+o.what+"): "+end.Why, c.P.InstrPos(o.at))
+						okb = false
+						break
+					}
+					worst = worst.join(end, true)
+					if !end.leq(lo) {
+						bad++
+						okb = false
+						c.Bad(rule, construct+"/"+o.what, fmt.Sprintf("the buffer holds %s bytes but this write can end at offset %s: with long enough fields the copy is truncated silently (the length prefix then announces more than was written) or the encoder indexes past the buffer", lo, end), c.P.InstrPos(o.at), nil)
+						break
+					}
+				}
+				if okb {
+					detail := fmt.Sprintf("%d writes and slices; worst end %s ≤ allocated %s for all field lengths", len(obls), worst, lo)
+					var as []string
+					for a := range up.used {
+						as = append(as, fmt.Sprintf("len(%s) ≤ %d", a, up.assume[a]))
+					}
+					sort.Strings(as)
+					if len(as) > 0 {
+						detail += " (assuming " + strings.Join(as, ", ") + ")"
+					}
+					c.Ok(rule, construct, detail, c.P.InstrPos(in))
+				}
+			}
+		}
+	}
+	c.Floor(rule, nBuf, 3, "encoder scratch buffers")
+	c.Floor(rule, nObl, 15, "write-end obligations")
+}
